@@ -860,7 +860,8 @@ impl NewCase {
             "E1"
         };
         use std::sync::atomic::Ordering::Relaxed;
-        if engine == "E2" && self.workers() >= 1 && crate::exec::E2_UNUSABLE.load(Relaxed) >= 3 {
+        let unusable = crate::exec::E2_UNUSABLE.load(Relaxed);
+        if engine == "E2" && (unusable >= 1000 || (self.workers() >= 1 && unusable >= 3)) {
             // established earlier in this batch (three times): E2 cannot run this tree's threads
             return self.real_binary_verdict(ctx, dir, "e2_unusable_for_this_tree_real_binary_used");
         }
